@@ -348,9 +348,15 @@ func genSval(c *core.Ctx, sel []result, depth int) sval {
 }
 
 // runStyleAttr: runtime.SanitizeStyleAttributeValues in every value form, and the attribute as rendered.
-func runStyleAttr(c *core.Ctx, res []result, escapedAgain bool) {
+func runStyleAttr(c *core.Ctx, res []result, refs []result, escapedAgain bool) {
 	defer layerPanic(c, "runtime.SanitizeStyleAttributeValues")
 	sel := pick(c, res, 4000, 2000)
+	// the character-reference family by stride, first (so that it goes through the one-map / one-KV part below)
+	var rsel []result
+	for i, step := 0, len(refs)/c.N(3000, 40000)+1; i < len(refs); i += step {
+		rsel = append(rsel, refs[i])
+	}
+	sel = append(rsel, sel...)
 	n := c.N(12000, 200000)
 	type ac struct {
 		vals   []sval
@@ -453,24 +459,28 @@ func runStyleAttr(c *core.Ctx, res []result, escapedAgain bool) {
 		if a.err || a.opaque {
 			continue
 		}
-		preqs = append(preqs, drv.Req{Fn: "decls_ok", Args: [][]byte{tb(html.UnescapeString(render(a.out))), tb(strconv.Itoa(a.decls))}})
+		preqs = append(preqs, drv.Req{Fn: "attr_value", Args: [][]byte{tb(render(a.out)), tb(strconv.Itoa(a.decls))}})
 		pidx = append(pidx, i)
 	}
 	pres := c.Model(preqs)
 	rendOK := true
 	for k, i := range pidx {
 		a := acs[i]
-		if k < len(pres) && len(pres[k]) == 1 && string(pres[k][0]) == "1" {
-			continue
+		seen := ""
+		if k < len(pres) && len(pres[k]) == 2 {
+			seen = string(pres[k][0])
+			if string(pres[k][1]) == "1" {
+				continue
+			}
 		}
 		rendOK = false
 		fam := "style attribute as rendered, character references decoded once"
 		if c.NFails(fam) < 5 {
-			c.Fail("property", fam, "", map[string]string{"values": describe(a.vals), "attribute_text": render(a.out), "css_seen": html.UnescapeString(render(a.out)), "generated_code_escapes_again": fmt.Sprint(escapedAgain)},
+			c.Fail("property", fam, "", map[string]string{"values": describe(a.vals), "attribute_text": render(a.out), "css_seen": seen, "generated_code_escapes_again": fmt.Sprint(escapedAgain)},
 				fmt.Sprintf("the CSS a browser sees in the rendered style attribute does not read back as exactly %d confined declarations", a.decls))
 		}
 	}
-	c.Oblige("correspondence", "style attribute as rendered by generated code, decoded once, reads back (extracted decl_list) as exactly the declarations written, each with name_ok/confined/urls_ok", rendOK, "")
+	c.Oblige("correspondence", "style attribute as rendered by generated code, decoded by the specification's attribute decoder (css_decode_attr), reads back (extracted decl_list) as exactly the declarations written, each with name_ok/confined/urls_ok", rendOK, "")
 	m := map[string]string{"font-family": `"a;color:red;b"`}
 	o, _ := templruntime.SanitizeStyleAttributeValues(m)
 	c.Sample(map[string]string{"style_map": `{"font-family": "\"a;color:red;b\""}`, "SanitizeStyleAttributeValues": o, "rendered_attribute": render(o), "css_seen_by_browser": html.UnescapeString(render(o))})
